@@ -4,6 +4,7 @@ import (
 	"archive/zip"
 	"bytes"
 	"encoding/xml"
+	"fmt"
 	"strings"
 
 	"golang.org/x/net/html"
@@ -87,6 +88,10 @@ func parseNavXHTML(content []byte) (*TableOfContents, error) {
 	doc, err := html.Parse(bytes.NewReader(content))
 	if err != nil {
 		return nil, err
+	}
+	// The walks below are recursive: refuse a tree so deep that they would exhaust the stack.
+	if navTreeDepthExceeds(doc, maxNavTreeDepth) {
+		return nil, fmt.Errorf("navigation document nested deeper than %d elements", maxNavTreeDepth)
 	}
 
 	toc := &TableOfContents{}
@@ -277,4 +282,33 @@ func (r *Reader) TableOfContents() *TableOfContents {
 
 	r.toc = toc
 	return toc
+}
+
+// maxNavTreeDepth is the deepest element nesting parseNavXHTML accepts.
+const maxNavTreeDepth = 10000
+
+// navTreeDepthExceeds reports whether some node lies more than limit levels below root. It walks
+// the tree iteratively (first child, next sibling, back up through the parent).
+func navTreeDepthExceeds(root *html.Node, limit int) bool {
+	depth := 0
+	n := root
+	for n != nil {
+		if n.FirstChild != nil {
+			n = n.FirstChild
+			depth++
+			if depth > limit {
+				return true
+			}
+			continue
+		}
+		for n != root && n.NextSibling == nil {
+			n = n.Parent
+			depth--
+		}
+		if n == root {
+			return false
+		}
+		n = n.NextSibling
+	}
+	return false
 }
